@@ -72,7 +72,13 @@ func runTreeCase(raw []byte) watch.Outcome {
 	defer cleanup()
 	vars := map[string]string{"R": r}
 	tr := c.Tree
-	if c.Rules != nil {
+	ownRuleFile := false
+	for _, n := range tr {
+		if n.Path == ".terraformignore" {
+			ownRuleFile = true
+		}
+	}
+	if c.Rules != nil && !ownRuleFile {
 		tr = append(fsx.Tree{{Path: ".terraformignore", Kind: "file", Content: *c.Rules, Mode: 0644}}, tr...)
 	}
 	if err := fsx.Materialise(r, c.Outside, vars); err != nil {
@@ -224,6 +230,12 @@ var hazards = []hazard{
 	{"link-to-dev-null", fsx.Tree{{Path: "ldn", Kind: "symlink", Target: "/dev/null"}, {Path: "ldz", Kind: "symlink", Target: "/dev/zero"}}, nil},
 	{"link-to-dev-dir", fsx.Tree{{Path: "lproc", Kind: "symlink", Target: "/proc/self/fd"}}, nil},
 	{"long-chain", fsx.Tree{{Path: "c0", Kind: "symlink", Target: "../ext/ch0"}}, chainTree(60)},
+	// the rule file itself is not a regular file
+	{"rulefile-fifo", fsx.Tree{{Path: ".terraformignore", Kind: "fifo"}}, nil},
+	{"rulefile-link-to-fifo", fsx.Tree{{Path: ".terraformignore", Kind: "symlink", Target: "../ext/rpipe"}}, fsx.Tree{{Path: "ext/rpipe", Kind: "fifo"}}},
+	{"rulefile-link-to-dev-zero", fsx.Tree{{Path: ".terraformignore", Kind: "symlink", Target: "/dev/zero"}}, nil},
+	{"rulefile-dir", fsx.Tree{{Path: ".terraformignore", Kind: "dir", Mode: 0755}}, nil},
+	{"rulefile-link-to-dir", fsx.Tree{{Path: ".terraformignore", Kind: "symlink", Target: "."}}, nil},
 }
 
 func chainTree(n int) fsx.Tree {
